@@ -157,5 +157,5 @@ CLAUSES = [
            rule="1..4 diagonal points inserted; translation along the diagonal by c in {-10..2} x span (targets with b+d<0 included); "
                 "rescaling; non-trivial = both non-empty, different sizes and a translated point with b+d<0"),
     Clause("stability", s_stab, check_stability, quick=2000, thorough=25000,
-           rule="SW <= 2 * W1 with W1 from the LP reference; non-trivial = >= 2 points each"),
+           rule="SW <= 2 * W1 with W1 from the independent assignment reference; non-trivial = >= 2 points each"),
 ]
